@@ -49,7 +49,7 @@ func TestC19Race(t *testing.T) {
 	}
 	stats := filepath.Join(dir, "stats.json")
 	cmd := exec.Command(bin, "-test.run", "^TestC19(Main|WitnessConcurrentSend)$", "-test.count=1", "-test.timeout=900s")
-	scale := "0.02"
+	scale := "0.015"
 	if pbt.GetEnv().Tier != "thorough" {
 		scale = "0.5"
 	}
